@@ -13,7 +13,7 @@
 (*                                                                         *)
 (* Menus (constant Menu, a set of names):                                  *)
 (*  "field"  NThreads threads, one setfield each, on fields taken from the *)
-(*           three consecutive fields around the first word boundary       *)
+(*           three (four) consecutive fields around a word boundary        *)
 (*           (same word / straddling / next word), every width in Widths,  *)
 (*           initial memory zeros / ones / alternating, values 0 /         *)
 (*           all-ones / top bit only (all combinations, or one rotation)   *)
@@ -34,6 +34,7 @@ CONSTANTS W,            \* word size of the bit-field vector
           AllValues,    \* TRUE: every combination of values; FALSE: the rotations Rots
           Rots,         \* rotations of <<all-ones, 0, top-bit>> over the threads
           PatSet,       \* initial memory patterns: subset of {"zeros", "ones", "alt"}
+          Boundaries,   \* "field" / "field2": which word boundaries (1 = bit W, 2 = bit 2W)
           NearFields,   \* "near": fields 0 .. NearFields-1
           EFN,          \* "ef": numbers of elements
           EFMaxThreads, \* "ef": at most this many threads
@@ -74,21 +75,24 @@ ValChoices(wd, n) ==
     ELSE {[t \in 1 .. n |-> ValSeq(wd)[((t + r) % 3) + 1]] : r \in Rots}
 
 \* ----- "field": around the first word boundary ------------------------------
-K(wd) == IF wd = 0 THEN 1 ELSE Max2(1, W \div wd)
-FieldSets(wd, n) ==          \* sequences of n distinct fields out of K-1, K, K+1
-    LET k == K(wd) IN
-    IF n = 3 THEN {<<k - 1, k, k + 1>>}
+\* the field containing (or starting at) bit b * W
+K(wd, b) == IF wd = 0 THEN b ELSE Max2(1, (b * W) \div wd)
+FieldSets(wd, n, b) ==       \* sequences of n distinct fields out of K-1, K, K+1 (K+2)
+    LET k == K(wd, b) IN
+    IF n = 4 THEN {<<k - 1, k, k + 1, k + 2>>}
+    ELSE IF n = 3 THEN {<<k - 1, k, k + 1>>}
     ELSE IF n = 2 THEN {<<k - 1, k>>, <<k, k + 1>>, <<k - 1, k + 1>>}
     ELSE {<<k>>}
 
 FieldInstances ==
-    UNION { UNION { UNION { UNION {
-        { Inst(wd, K(wd) + 3, pat, 0, "zeros", [t \in 1 .. n |-> <<SF(fs[t], vs[t])>>]) :
+    UNION { UNION { UNION { UNION { UNION {
+        { Inst(wd, K(wd, b) + 4, pat, 0, "zeros", [t \in 1 .. n |-> <<SF(fs[t], vs[t])>>]) :
             vs \in ValChoices(wd, n) } :
-          fs \in FieldSets(wd, n) } :
+          fs \in FieldSets(wd, n, b) } :
         pat \in Pats } :
       n \in NThreads } :
-    wd \in Widths }
+    wd \in Widths } :
+    b \in Boundaries }
 
 \* ----- "near": every set of distinct fields among the first NearFields ------
 NearSets(n) == {s \in [1 .. n -> Low(NearFields)] : \A a, b \in 1 .. n : a < b => s[a] < s[b]}
@@ -103,16 +107,18 @@ NearInstances ==
 
 \* ----- "field2": two threads, two jobs each, interleaved fields ------------
 Field2Instances ==
-    UNION { UNION { UNION {
-        { Inst(wd, K(wd) + 4, pat, 0, "zeros",
-               << <<SF(K(wd) - 1, vs[1]), SF(K(wd) + 1, vs[2])>>,
-                  <<SF(K(wd), vs[2]), SF(K(wd) + 2, vs[1])>> >>),
+    UNION { UNION { UNION { UNION {
+        LET k == K(wd, b) IN
+        { Inst(wd, k + 4, pat, 0, "zeros",
+               << <<SF(k - 1, vs[1]), SF(k + 1, vs[2])>>,
+                  <<SF(k, vs[2]), SF(k + 2, vs[1])>> >>),
           \* a thread may write its own element twice; the last value stays
-          Inst(wd, K(wd) + 4, pat, 0, "zeros",
-               << <<SF(K(wd), vs[1]), SF(K(wd), vs[2])>>, <<SF(K(wd) + 1, vs[2])>> >>) } :
+          Inst(wd, k + 4, pat, 0, "zeros",
+               << <<SF(k, vs[1]), SF(k, vs[2])>>, <<SF(k + 1, vs[2])>> >>) } :
           vs \in ValChoices(wd, 2) } :
         pat \in Pats } :
-      wd \in Widths }
+      wd \in Widths } :
+    b \in Boundaries }
 
 \* ----- "bit": AtomicBitVec jobs around bit 63 | 64 --------------------------
 B == BOOLEAN
@@ -180,10 +186,11 @@ MCLive == MCSpec /\ \A t \in 1 .. MaxT : WF_mcvars(t \in Threads /\ ThreadStep(t
 
 View == avars
 
-InstancesOK == WellFormedI(I) /\ Len(I.prog) <= MaxT
+\* the instances are inside the hypothesis of the property (no vacuity)
+InstancesOK == WellFormedI(I) /\ Len(I.prog) <= MaxT /\ DistinctFields
 
 \* one line per complete schedule
-Episode == [fam |-> "atomic", src |-> "tlc", ord |-> "relaxed",
+Episode == [fam |-> "atomic", src |-> "tlc", ord |-> "relaxed", budget_ms |-> 180000,
             ops |-> [k \in 1 .. Len(hist) |-> [op |-> "step", t |-> hist[k]]] \o <<[op |-> "end"]>>] @@ I
 Emit == (Export /\ Quiescent) => PrintT(<<"SCRIPT", ToJson(Episode)>>)
 =============================================================================
